@@ -6,6 +6,7 @@ import (
 	"runtime"
 
 	"github.com/mlange-42/arche/ecs"
+	"github.com/mlange-42/arche/generic"
 	"runtime/debug"
 	"sync/atomic"
 )
@@ -18,6 +19,41 @@ func init() {
 	}
 	extraApply["Dump"] = func(s *Sess, op *Op, out *Outcome) []ExpEvent { return nil }
 	extraGen["Dump"] = func(g *Gen) *Op { return &Op{K: "Dump"} }
+	// Stats: what the world reports about itself is a return value like any other
+	extraCalls["Stats"] = func(s *Sess, op *Op, out *Outcome) {
+		st := s.W.Stats()
+		s.trace("stats", fmt.Sprintf("%+v", st.Entities), st.CachedFilters, st.ComponentCount, st.Locked, len(st.Nodes))
+	}
+	extraApply["Stats"] = func(s *Sess, op *Op, out *Outcome) []ExpEvent { return nil }
+	extraGen["Stats"] = func(g *Gen) *Op { return &Op{K: "Stats"} }
+	// GFRegDrop: a generic filter is registered and the filter object is dropped without Unregister (the
+	// registration stays; nothing may depend on when the collector notices the dropped object)
+	extraCalls["GFRegDrop"] = func(s *Sess, op *Op, out *Outcome) {
+		switch op.N {
+		case 0:
+			generic.NewFilter0().Register(s.W)
+		case 1:
+			generic.NewFilter1[G0]().Register(s.W)
+		default:
+			generic.NewFilter2[G0, G1]().Register(s.W)
+		}
+	}
+	extraApply["GFRegDrop"] = func(s *Sess, op *Op, out *Outcome) []ExpEvent { return nil }
+	extraGen["GFRegDrop"] = func(g *Gen) *Op {
+		if g.S.open > 0 || g.S.dropped >= 6 {
+			return nil
+		}
+		// only types the world knows already (a generic filter would register missing ones)
+		n := 0
+		if g.S.keyID("S0") >= 0 {
+			n = 1
+			if g.S.keyID("S1") >= 0 {
+				n = 2
+			}
+		}
+		g.S.dropped++
+		return &Op{K: "GFRegDrop", N: g.R.Intn(n + 1)}
+	}
 }
 
 var churnSink atomic.Pointer[[]byte]
@@ -39,6 +75,10 @@ func caseC13(c *Ctx) {
 	p.Scale(3, "BuilderNew", "RelSet", "RemoveEntity", "QueryCheck", "NewBatch", "BatchSetRel", "BatchRemoveEntities")
 	p.Scale(2, "CacheRegister")
 	p.W["Dump"] = 4
+	p.W["Stats"] = 4
+	if c.Case%3 == 0 {
+		p.W["GFRegDrop"] = 3
+	}
 	p.W["Reset"] = 1
 	p.Late = lateKeys(c.R, 5)
 	// world A: the reference run generates the op list
